@@ -193,6 +193,20 @@ func runC09(c *Ctx, phase string) {
 					mk(hole, p+"+")
 				}
 			}
+			if u.SpellOK(id, gen.SpOnly) {
+				// the case variant together with a synthesised suffix (the suffix itself keeps its case)
+				mk(hole+"-only", id)
+				mk(id, hole+"-only")
+				mk(hole+"-or-later", partners[len(partners)-1])
+				mk(partners[len(partners)-1], hole+"-or-later")
+				mk(hole+"-or-later+ WITH "+exc, id+"+ WITH "+exc)
+				mk("("+hole+"-only) AND MIT", id, "MIT")
+			}
+			// two different case variants of the same id in one expression / one list
+			mk(hole+" AND "+id, id)
+			mk(hole+" OR "+strings.ToLower(id), strings.ToUpper(id))
+			mk(id, "MIT", "ISC", hole, id)
+			mk(id+" WITH "+exc, "MIT", hole+" WITH "+strings.ToUpper(exc), "ISC")
 			mk(hole+" WITH "+exc, hole+" WITH "+exc)
 			mk(hole+" WITH "+exc, id+" WITH "+exc)
 			mk(hole+" WITH "+exc, id)
